@@ -127,6 +127,23 @@ def r1(rep, prog):
             continue
         if k not in seen:
             rep.fail(R, "stale table entry %s / %s / %s" % (short(k[0]), short(k[1]), k[2]), "the permitted site no longer exists: the table must be re-confirmed")
+    # flow-sensitive companion: a storage Result kept in a local must not be overwritten unread
+    OVERWRITE_OK = {
+        "tantivy::directory::mmap_directory::file_watcher::FileWatcher::spawn::{closure#0}":
+            "the `let _ = callbacks.broadcast().wait()` temporary of the watcher loop (tabled above as discarded)",
+    }
+    ow = errfate.overwritten_results(prog, scope)
+    for body, b, l in ow:
+        nm = body.var_names().get(l, "_tmp")
+        if body.id in OVERWRITE_OK:
+            rep.ok(R, "%s: Result local `%s` reassigned unread" % (short(body.id), nm), "permitted: " + OVERWRITE_OK[body.id], site=site(body, b))
+        else:
+            rep.fail(R, "%s: Result local `%s` can be overwritten before it is inspected" % (short(body.id), nm),
+                     "a storage Result stored in `%s` can be assigned again (e.g. on the next loop iteration) on a path where the previous value was never read: an earlier error is replaced by a later Ok and never reported" % nm,
+                     site=site(body, b))
+    for k in OVERWRITE_OK:
+        if k not in {body.id for body, _, _ in ow}:
+            rep.fail(R, "stale overwrite entry %s" % short(k), "the permitted reassigned-Result site no longer exists: re-confirm")
     rep.extra["fate_counts"] = dict(fc)
     rep.extra["scope_bodies"] = len(scope)
     rep.sample({"rule": R, "scope_bodies": len(scope), "storage_error_call_sites": len(res), "fates": dict(fc)})
